@@ -104,3 +104,77 @@ func c01cellTextPhase(r *Run, rng *Rng, n int) {
 		c01setint(r, v)
 	}
 }
+
+// c01puts: a sequence of SetCellInt / SetCellBool on a new worksheet; the internal <sheetData> afterwards
+// against the model of prepareSheetXML + fillColumns + setter (SaveBook.writeCell).
+func c01puts(r *Run, spec string) {
+	w := strings.Fields(spec)
+	res := "bad-op"
+	func() {
+		defer func() {
+			if recover() != nil {
+				res = "PANIC"
+			}
+		}()
+		n, err := strconv.Atoi(w[0])
+		if err != nil || len(w) != 1+4*n {
+			return
+		}
+		f := xl.NewFile()
+		defer f.Close()
+		for k := 0; k < n; k++ {
+			j, _ := strconv.Atoi(w[1+4*k])
+			i, _ := strconv.Atoi(w[2+4*k])
+			v, _ := strconv.ParseInt(w[4+4*k], 10, 64)
+			cell, e := xl.CoordinatesToCellName(j+1, i+1)
+			if e != nil {
+				return
+			}
+			if w[3+4*k] == "b" {
+				e = f.SetCellBool("Sheet1", cell, v != 0)
+			} else {
+				e = f.SetCellInt("Sheet1", cell, v)
+			}
+			if e != nil {
+				res = "ERR"
+				return
+			}
+		}
+		res = xl.VerifC01Rows(f, "Sheet1")
+	}()
+	ln := r.Op("puts "+spec, res)
+	r.Case("puts:"+spec, true)
+	r.Stat("puts")
+	// inv_step on the real code: the sheet is dense after every sequence of writes
+	if rows, ok := c01parse(res); ok {
+		if _, dense := c01denseAbs(rows); !dense {
+			r.Fail("puts:not-dense", "worksheet not dense after a sequence of cell writes", ln, "puts "+spec)
+		}
+	}
+}
+
+func c01putsPhase(r *Run, rng *Rng, n int) {
+	c01puts(r, "0")
+	c01puts(r, "3 2 0 i 7 0 0 b 1 2 0 i -5")
+	c01puts(r, "2 16383 1 i 1 0 2 b 0")
+	for k := 0; k < n; k++ {
+		m := rng.Range(1, 8)
+		var b strings.Builder
+		b.WriteString(strconv.Itoa(m))
+		for q := 0; q < m; q++ {
+			j, i := rng.Intn(7), rng.Intn(7)
+			if rng.Chance(4) {
+				j = rng.Pick2([]int{25, 26, 701, 16383})
+			}
+			if rng.Chance(4) {
+				i = rng.Pick2([]int{98, 250})
+			}
+			if rng.Chance(25) {
+				fmt.Fprintf(&b, " %d %d b %d", j, i, rng.Intn(2))
+			} else {
+				fmt.Fprintf(&b, " %d %d i %d", j, i, rng.Intn(2000)-1000)
+			}
+		}
+		c01puts(r, b.String())
+	}
+}
